@@ -24,9 +24,16 @@ class UniquifiedTranslation : public CacheTranslation {
 
   an<Translation> translation_;
   CandidateList* candidates_;
+  // texts already handed to the next filter, which may hold them back
+  // (prefetch) before they reach *candidates_
+  set<string> yielded_;
 };
 
 bool UniquifiedTranslation::Next() {
+  if (!exhausted()) {
+    if (auto current = Peek())
+      yielded_.insert(current->text());
+  }
   return CacheTranslation::Next() && Uniquify();
 }
 
@@ -47,6 +54,12 @@ bool UniquifiedTranslation::Uniquify() {
     CandidateList::iterator previous =
         find_text_match(next, candidates_->begin(), candidates_->end());
     if (previous == candidates_->end()) {
+      if (yielded_.find(next->text()) != yielded_.end()) {
+        // Duplicate of a candidate that a later filter has not released yet;
+        // it cannot be merged into that one, so drop it.
+        CacheTranslation::Next();
+        continue;
+      }
       // Encountered a unique candidate.
       return true;
     }
